@@ -2,6 +2,7 @@ import FxVerif.Model.C16
 import FxVerif.Model.C16Sem
 import FxVerif.Model.C16Store
 import FxVerif.Model.C16Tx
+import FxVerif.Model.C16Dep
 import FxVerif.Model.Util
 /-! line-protocol driver for the C16 model: `lake env lean --run Driver/C16.lean < ops.txt`
 
@@ -13,6 +14,7 @@ ops:
 * `call <msg> <gov-hex> <auth-hex> <payloadOk> <chain> <govOk> <non-empty list fields>`   one routed message → the stage it ends in
 * `hcall <type> <msg> <gov-hex> <auth-hex> <chain> <govOk> <non-empty list fields>`   the method serving the message on a value of that concrete type, called directly
 * `tx|authz|gprop <msg> <gov-hex> <auth-hex> <signer/grantee bytes hex or -> <payloadOk> <chain> <govOk> <lists>`   the message inside a signed transaction / a MsgExec / a passed proposal
+* `dcall <type> <method> <gov-hex> <auth-hex>`         a dependency handler (SDK / IBC / ethermint) called directly
 * `casreset`                                        empty scratch stores
 * `cas <gov-hex> <auth-hex> <space:key:old:new>…`   one MsgUpdateStore through its branch
 * `prop <gov-hex> m <auth-hex> <entry>… m …`        a passed proposal with several MsgUpdateStore messages
@@ -110,6 +112,15 @@ def step (st : St) (line : String) : St × String :=
         | _ => "past-guard")
     | none, _, _ => (st, "unknown-message")
     | _, _, _ => (st, "bad-op")
+  | ["dcall", T, m, govH, authH] =>
+    -- a dependency handler (Gen/C16Dep.lean) called directly
+    match unhexS govH, unhexS authH with
+    | some gov, some auth =>
+      if (resolve depProg T m).isNone then (st, "unknown-handler") else
+      (st, match exec depProg (mkEnv st.cfg gov) auth (world true) 4 T m 0 with
+        | (.err, 0) => "rejected"
+        | _ => "past-guard")
+    | _, _ => (st, "bad-op")
   | "cas" :: govH :: authH :: ups =>
     match unhexS govH, unhexS authH, ups.mapM parseEntry with
     | some gov, some auth, some es =>
